@@ -36,6 +36,7 @@ def main(tier, replay=None):
     camp.run([], [["reset", "bulk %d %d" % (m, k)] for (m, k) in (((700, 3), (3000, 7), (12000, 2)) if quick else ((300, 1), (700, 3), (3000, 7), (12000, 2), (40000, 5), (60000, 11)))],
              "bulk", sample=False)
     camp.run([], [["reset", "cycles %d" % m] for m in ((40, 300) if quick else (10, 40, 300, 3000))], "ownership-cycles", sample=False)
+    camp.run([], [["reset", "tuplenull"]], "tuple-with-null-item", sample=False)
     chk.cov["rule"] = ("an execution = one mutator program (allocations of every object kind and mode, pointer stores, container "
                        "insertions/removals, root drops, TLS entries, deletions, forced and threshold collections) run in its own "
                        "process; TLC recomputes reachability on the specification's graph at every step and rejects a sweep that took a "
